@@ -32,6 +32,12 @@ def text(name):
                     out.append(l[:12] + ' OXT' + l[16:17] + last[17:27] + l[27:76] + ' O' + l[78:])
                     done = True
             _TXT[name] = '\n'.join(out) + '\nTER   \n'
+        elif '%' in name:
+            # 'name%HG': the zinc ion of the fixture replaced by another configured ion (atom name, residue name and element columns):
+            # ions whose symbol starts like a lighter element (HG / H, CA / C, NA / N)
+            base, ion = name.split('%', 1)
+            _TXT[name] = '\n'.join((l[:12] + '%-4s' % ion + l[16:17] + '%3s' % ion + l[20:76] + '%2s' % ion + l[78:]) if (l.startswith('HETATM') and l[17:20].strip() == 'ZN') else l
+                                   for l in text(base).split('\n') if l) + '\n'
         elif '|' in name:
             # 'name|BC@37': the atoms of residue 37 exist only as alternate locations B and C (C displaced by (0.3, 0.2, -0.1));
             # everything else has no alternate-location tag: three conformations A, B, C, the first one lacking the residue
